@@ -54,7 +54,7 @@ pub fn containers(nil_ne: bool) -> (String, Uni) {
     ];
     let funcs = [
         "idb", "len", "up", "nie", "arr", "opt", "lit", "both", "sum", "cat2", "pick", "cnt", "inc", "isb", "nul",
-        "fb", "fa", "concat",
+        "fb", "fa", "concat", "ctxfn",
     ];
     let uni = Uni::new(&fields, &funcs, nil_ne).with_lists(&[
         (Ty::Int, ListKind::Set),
